@@ -152,6 +152,7 @@ def run_rule(run, p, pid):
         # sampling with the smallest sizes: whatever is left unmatched after the sampled attempts is all taken in at the end
         cases = cases + [('five-layouts', ['ab-1', 'xyy', '3.21', 'Q_a', '(5)'], 'tiny-size', {'#small-size': (1, 1), 'seed': 3}),
                          ('five-layouts', ['ab-1', 'xyy', '3.21', 'Q_a', '(5)'], 'tiny-size-other-seed', {'#small-size': (1, 1), 'seed': 8}),
+                         ('five-layouts', ['ab-1', 'xyy', '3.21', 'Q_a', '(5)'], 'zero-exceptions-size', {'#small-size': (2, 0), 'seed': 1}),
                          ('optional-tail', ['ab12', 'cd'], 'variable-length', {'variableLengthFrags': True}),
                          ('optional-tail-letters', ['abcc', 'ab', 'zz'], 'variable-length', {'variableLengthFrags': True})]
     run.rule(rid, texts[pid] % len(cases))
